@@ -231,13 +231,34 @@ _PCW_ASSUME = [
 PROPS['C10']['assumptions'] += _PCW_ASSUME
 PROPS['C14']['assumptions'] += _PCW_ASSUME + [_DEV]
 
-FIX_COMMITS = ['4bb8197', '4c9a29a', '15147a8', '4e117ba', 'b93d656', 'a099e6e', 'e707a6b', '30d67e9']
+TRUSTED_ALLOW['blob'] = TRUSTED_ALLOW['page_w'] | TRUSTED_ALLOW['page_r'] | {
+    'external_body:shim_u64_to_le_bytes', 'external_body:shim_le_u64',
+}
+UNIT_RLIMIT['blob'] = 30
+PROPS['C06'] = {
+    'level': 'proof',
+    'verus': ['blob'],
+    'claim': ('Blob::write, proved on the real body over the extracted PagedWriter: the logical stream receives exactly header(16) ++ payload ++ zero '
+              'padding to the next 4-byte boundary (append/patch algebra over the whole stream view: nothing else changes, also not by the header '
+              'patch), the header carries section id 0 and the section length of the format (header + payload + padding; convention confirmed on '
+              'libE57Format / las2e57 files in testdata), the descriptor is (physical position of the section start, payload length). Blob::read, over '
+              'the extracted PagedReader: Ok(n) implies n == length and the sink received exactly the `length` logical bytes behind the 16-byte header at '
+              'the descriptor offset, every one from a page with a valid checksum; otherwise an error. std::io::copy / Read::take are restated and '
+              'verified against the extracted write / read (any chunking).'),
+    'trusted': GLOBAL_TRUSTED + [_DEV, _CRC_OFF],
+    'assumptions': [_DEV, 'source/sink of the caller (&mut dyn Read / &mut dyn Write) are ghost-sequence models with the std::io contracts (any short read; write_all appends or fails)',
+                    'sections start 4-byte aligned (precondition; every section writer aligns afterwards: proved for Blob::write and PagedWriter::align)',
+                    'image->blob wiring (ImageWriter::add_*) is straight-line code storing the returned descriptors: not under contract (String/Image structs)',
+                    'composition write∘read through the page layer is by the C11 contracts (logical stream survives flush); no end-to-end lemma over whole files'],
+}
+
+FIX_COMMITS = ['4bb8197', '4c9a29a', '15147a8', '4e117ba', 'b93d656', 'a099e6e', 'e707a6b', '30d67e9', '4443841', '1d90b93', 'ec0e9b9']
 
 _PENDING = 'unit not completed yet in the build round (applicable; see DESIGN.md §1) — not claimed until its obligations are discharged'
 NOT_APPLICABLE = {
     'C01': _PENDING, 'C02': _PENDING,
     'C04': 'lives entirely in format!-built strings and roxmltree parsing; no contract within reach of Verus (no str byte reasoning) or Kani (roxmltree does not finish) can state parse(serialise(x)) = x (DESIGN.md §6)',
-    'C05': _PENDING, 'C06': _PENDING, 
+    'C05': _PENDING, 
     'C15': _PENDING, 
     'C18': 'about roxmltree name matching and element lookup over arbitrary XML trees; would need an assumed contract on the dependency, which decides nothing (DESIGN.md §6)',
     'C19': 'whole-file composition of C01+C03+C04 plus writer determinism; the XML half is out of reach and whole-program composition is not a per-function contract; decidable ingredients are discharged under C10/C11/C12 (DESIGN.md §6)',
